@@ -103,6 +103,7 @@ int main(int argc, char** argv) {
         kd = isid ? std::llround(k00) : -1;
       }
       r.set("kdiag", Json(kd));
+      r.set("k_untouched", Json(kun));
     } else {
       r.set("nf", Json(nf));
       bool finite = true;
